@@ -38,10 +38,19 @@ type mgStmt struct {
 	F          int       // call, callasg: callee
 	Name       string    // its Go name
 	Args       []*mgExpr
-	Decl       bool    // callasg: := or =
-	Xs         []int   // callasg: targets, -1 is the blank identifier
+	Decl       bool       // callasg: := or =
+	Xs         []int      // callasg: targets, -1 is the blank identifier
+	Clauses    []mgClause // switch (E: the tag, nil for a switch without tag)
+	Default    []*mgStmt
+	HasDefault bool
 	S1, S2, S3 *mgStmt // seq: S1 S2; if: S1; ifelse: S1 S2; for: init S1, post S2, body S3; block: S1
 	L          []*mgStmt
+}
+
+type mgClause struct {
+	Num  bool // integer comparison (the tag is an int); otherwise boolean
+	Es   []*mgExpr
+	Body []*mgStmt
 }
 
 type mgFunc struct {
@@ -248,6 +257,21 @@ func (s *mgStmt) goSrc(sb *strings.Builder, ind int) {
 		sb.WriteString(tab + "{\n")
 		mgGoBlock(sb, s.L, ind+1)
 		sb.WriteString(tab + "}\n")
+	case "switch":
+		if s.E != nil {
+			sb.WriteString(tab + "switch " + s.E.goSrc() + " {\n")
+		} else {
+			sb.WriteString(tab + "switch {\n")
+		}
+		for _, c := range s.Clauses {
+			sb.WriteString(tab + "case " + mgArgs(c.Es) + ":\n")
+			mgGoBlock(sb, c.Body, ind+1)
+		}
+		if s.HasDefault {
+			sb.WriteString(tab + "default:\n")
+			mgGoBlock(sb, s.Default, ind+1)
+		}
+		sb.WriteString(tab + "}\n")
 	default:
 		panic("mgStmt kind " + s.K)
 	}
@@ -306,6 +330,20 @@ func (s *mgStmt) coq() string {
 		return "SReturn [" + s.E.coq() + "]"
 	case "block":
 		return "SBlock (" + mgCoqSeq(s.L) + ")"
+	case "switch":
+		tag := "None"
+		if s.E != nil {
+			tag = "(Some (" + s.E.coq() + "))"
+		}
+		cs := make([]string, len(s.Clauses))
+		for i, c := range s.Clauses {
+			cs[i] = fmt.Sprintf("(%v, %s, %s)", c.Num, mgCoqArgs(c.Es), mgCoqSeq(c.Body))
+		}
+		d := "None"
+		if s.HasDefault {
+			d = "(Some (" + mgCoqSeq(s.Default) + "))"
+		}
+		return "Switch " + tag + " [" + strings.Join(cs, "; ") + "] " + d
 	}
 	panic("mgStmt kind " + s.K)
 }
@@ -370,6 +408,8 @@ type mgGen struct {
 	// static bound on the work of a run: cost of the function being generated, product of the iteration bounds of the
 	// enclosing loops, cost of the functions generated so far (callees are generated before their callers)
 	cost, mult float64
+	swTotal    int // nesting of switches (return drops that many tags; four or more would use PACK)
+	swInner    int // switches entered since the innermost loop: break is allowed, continue drops them
 	fcost      []float64
 }
 
@@ -723,6 +763,9 @@ func (g *mgGen) stmt(budget *int) []*mgStmt {
 		}
 		g.bind(i)
 		g.inLoop++
+		savedSw := g.swInner
+		g.swInner = 0
+		defer func() { g.swInner = savedSw }()
 		saved := g.mult
 		g.mult *= float64(n)
 		s.S3 = &mgStmt{L: g.loopBody(g.block(1+g.r.intn(3), budget))}
@@ -738,6 +781,9 @@ func (g *mgGen) stmt(budget *int) []*mgStmt {
 		g.bind(v)
 		fix := &mgStmt{K: "if", E: g.mkBin("Lt", mgVarE(v.id), mgLit(0)), S1: &mgStmt{L: []*mgStmt{{K: "asg", X: v.id, E: &mgExpr{K: "neg", A: mgVarE(v.id)}}}}}
 		g.inLoop++
+		savedSw2 := g.swInner
+		g.swInner = 0
+		defer func() { g.swInner = savedSw2 }()
 		savedMult := g.mult
 		g.mult *= 21 // the counter is below 2^20 and at least halved per iteration
 		infinite := g.r.bool()
@@ -756,13 +802,28 @@ func (g *mgGen) stmt(budget *int) []*mgStmt {
 		}
 		return []*mgStmt{d1, fix, loop}
 	case k < 17:
-		if g.inLoop > 0 {
+		if (g.inLoop > 0 || g.swInner > 0) && !g.r.chance(25) {
 			g.feat["break-continue"]++
-			return []*mgStmt{{K: "if", E: g.genBool(1), S1: &mgStmt{L: []*mgStmt{{K: pick(g.r, []string{"break", "continue"})}}}}}
+			k := "break"
+			if g.inLoop > 0 && g.r.bool() {
+				k = "continue"
+				if g.swInner > 0 {
+					g.feat["continue-in-switch"]++
+				}
+			} else if g.swInner > 0 {
+				g.feat["break-in-switch"]++
+			}
+			return []*mgStmt{{K: "if", E: g.genBool(1), S1: &mgStmt{L: []*mgStmt{{K: k}}}}}
 		}
 		g.feat["early-return"]++
+		if g.swTotal > 0 {
+			g.feat["return-in-switch"]++
+		}
 		return []*mgStmt{{K: "if", E: g.genBool(1), S1: &mgStmt{L: []*mgStmt{g.retStmt()}}}}
 	case k < 18:
+		if g.swTotal < 3 && g.r.chance(70) {
+			return []*mgStmt{g.switchStmt(budget)}
+		}
 		return []*mgStmt{{K: "block", L: g.block(2, budget)}}
 	case k < 19:
 		if g.r.bool() {
@@ -787,12 +848,134 @@ func (g *mgGen) stmt(budget *int) []*mgStmt {
 		}
 		return nil
 	default:
+		if g.inLoop > 0 && g.swTotal < 3 && g.r.chance(40) {
+			return []*mgStmt{g.switchStmt(budget)}
+		}
 		vs := g.vars("int", true)
 		if len(vs) == 0 {
 			return nil
 		}
 		return []*mgStmt{{K: "asg", X: vs[g.r.intn(len(vs))].id, E: g.genIntFit(3)}}
 	}
+}
+
+// switchStmt: a switch on an integer tag or without tag, default clause last or absent, no fallthrough (the
+// real compiler's handling of the other forms is finding F142)
+func (g *mgGen) switchStmt(budget *int) *mgStmt {
+	g.feat["switch"]++
+	s := &mgStmt{K: "switch"}
+	num := g.r.chance(65)
+	if num {
+		s.E = g.mkBin("Mod", g.genInt(2), mgLit(int64(4+g.r.intn(4))))
+	}
+	g.swTotal++
+	g.swInner++
+	n := 1 + g.r.intn(3)
+	usedLit := map[int64]bool{}
+	for i := 0; i < n; i++ {
+		c := mgClause{Num: num}
+		for j := 0; j < 1+g.r.intn(2); j++ {
+			var e *mgExpr
+			if num {
+				if g.r.chance(75) {
+					z := int64(g.r.intn(9) - 2)
+					if usedLit[z] { // duplicate constant cases are a compile error
+						continue
+					}
+					usedLit[z] = true
+					e = mgLit(z)
+				} else {
+					e = g.genInt(1)
+					if e.isConst() {
+						continue
+					}
+				}
+			} else {
+				e = g.genBool(2)
+				if e.isConst() {
+					e = g.genBool(0)
+				}
+				if e.isConst() {
+					continue
+				}
+			}
+			c.Es = append(c.Es, e)
+		}
+		if len(c.Es) == 0 {
+			continue
+		}
+		if !g.r.chance(15) { // sometimes an empty clause
+			c.Body = g.clauseBody(budget)
+		}
+		s.Clauses = append(s.Clauses, c)
+	}
+	if g.r.chance(60) || len(s.Clauses) == 0 {
+		s.HasDefault = true
+		s.Default = g.clauseBody(budget)
+	}
+	// the jump to the end of the switch after the last clause is deleted by the real compiler (a jump to the next
+	// instruction), and so would be a break in tail position of that clause: keep it out of tail position
+	last := &s.Default
+	if !s.HasDefault {
+		last = &s.Clauses[len(s.Clauses)-1].Body
+	}
+	if mgTailIs(*last, "break") {
+		if vs := g.vars("int", true); len(vs) > 0 {
+			*last = append(*last, &mgStmt{K: "asg", X: vs[0].id, E: g.genIntFit(1)})
+		} else {
+			*last = append(*last, &mgStmt{K: "block", L: []*mgStmt{g.retStmt()}})
+		}
+	}
+	g.swTotal--
+	g.swInner--
+	return s
+}
+
+func (g *mgGen) clauseBody(budget *int) []*mgStmt {
+	g.scopes = append(g.scopes, nil)
+	var l []*mgStmt
+	for i := 0; i < 1+g.r.intn(2) && *budget > 0; i++ {
+		l = append(l, g.stmt(budget)...)
+	}
+	// jumps out of the switch: continue and return have to drop the tags first
+	switch {
+	case g.inLoop > 0 && g.r.chance(30):
+		g.feat["continue-in-switch"]++
+		l = append(l, &mgStmt{K: "if", E: g.genBool(1), S1: &mgStmt{L: []*mgStmt{{K: "continue"}}}})
+	case g.r.chance(12):
+		g.feat["return-in-switch"]++
+		l = append(l, &mgStmt{K: "if", E: g.genBool(1), S1: &mgStmt{L: []*mgStmt{g.retStmt()}}})
+	case g.r.chance(12):
+		g.feat["break-in-switch"]++
+		l = append(l, &mgStmt{K: "if", E: g.genBool(1), S1: &mgStmt{L: []*mgStmt{{K: "break"}}}})
+		if vs := g.vars("int", true); len(vs) > 0 {
+			l = append(l, &mgStmt{K: "asg", X: vs[0].id, E: g.genIntFit(1)})
+		}
+	}
+	g.scopes = g.scopes[:len(g.scopes)-1]
+	return l
+}
+
+// mgTailIs: the statement list ends, in tail position, with the given jump statement
+func mgTailIs(l []*mgStmt, kind string) bool {
+	if len(l) == 0 {
+		return false
+	}
+	s := l[len(l)-1]
+	switch s.K {
+	case kind:
+		return true
+	case "if":
+		return mgTailIs(s.S1.L, kind)
+	case "ifelse":
+		if s.S2.K == "if" || s.S2.K == "ifelse" {
+			return mgTailIs([]*mgStmt{s.S2}, kind)
+		}
+		return mgTailIs(s.S2.L, kind)
+	case "block":
+		return mgTailIs(s.L, kind)
+	}
+	return false
 }
 
 // mgTailContinue: the body ends in a continue in tail position. The real compiler deletes a jump to the
@@ -1052,7 +1235,8 @@ func c14DecodeTarget(script []byte) (terms []string, at map[int]int, err error) 
 		opcode.LT: "ICmp CLt", opcode.LE: "ICmp CLe", opcode.GT: "ICmp CGt", opcode.GE: "ICmp CGe",
 		opcode.NUMEQUAL: "ICmp CEq", opcode.NUMNOTEQUAL: "ICmp CNe",
 		opcode.RET: "IRet", opcode.DROP: "IDrop", opcode.SWAP: "ISwap", opcode.REVERSE3: "IReverse3",
-		opcode.REVERSE4: "IReverse4", opcode.REVERSEN: "IReverseN", opcode.NOP: "INop"}
+		opcode.REVERSE4: "IReverse4", opcode.REVERSEN: "IReverseN", opcode.NOP: "INop",
+		opcode.DUP: "IDup", opcode.EQUAL: "IEqual"}
 	for _, in := range ins {
 		op := in.op
 		switch {
@@ -1301,7 +1485,7 @@ func c14FragGenerate(co *caseOut, cf *commonFlags, r *rng, work string) error {
 		p, sigs := mgGenProg(r, feat)
 		in := c14FragInput{Pkg: fmt.Sprintf("m%d", i), Coq: p.coq(), Tag: fmt.Sprintf("funcs%d", len(p.Funcs))}
 		in.Src = p.goSrc(in.Pkg)
-		for _, k := range []string{"for", "while", "call", "and", "or", "recursion", "multi-call"} {
+		for _, k := range []string{"for", "while", "call", "and", "or", "recursion", "multi-call", "switch"} {
 			if feat[k] > before[k] {
 				in.Nont = true
 			}
